@@ -991,6 +991,7 @@ SEQ_FORMS = ("list-int", "list-float", "list-complex", "tuple", "npscalars")
 REDUCED_FORMS = ("float32", "complex64")
 DIV_CLASSES = ("Ldmcsu", "LdMcSpecialUnitary", "MultiTargetMCSU2")
 TOL_REDUCED = 1e-5
+CS_TYPES = {"np.int64": np.int64, "np.int32": np.int32, "np.uint8": np.uint8}     # numpy forms of a decimal ctrl_state
 QHALF = np.array([[0.5 + 0.5j, -0.5 + 0.5j], [0.5 + 0.5j, 0.5 - 0.5j]])    # general SU(2), exact in complex64
 R345 = np.array([[0.6, -0.8], [0.8, 0.6]], dtype=complex)
 
@@ -1136,8 +1137,8 @@ def div_eval(spec):
     for pos, i in enumerate(ctrl_idx + tgt_idx):
         labels[i] = pos
     cs_str = format(cs, f"0{k}b") if isinstance(cs, int) else cs
-    if spec.get("cs_type") == "np.int64":
-        cs = np.int64(cs)
+    if spec.get("cs_type"):
+        cs = CS_TYPES[spec["cs_type"]](cs)
     how = spec.get("cs_how", "kw")
     exact = all(np.array_equal(u, unflat(m)) for u, m in zip(up, spec["unitaries"]))
     out = {"exc": None, "err": None, "ties": [], "mutated": False, "up": [mflat(u) for u in up], "cs_str": cs_str, "exact": exact,
@@ -1226,11 +1227,16 @@ def div_allowed_exc(spec):
         return "ValueError"                                 # not a list: taken for ONE matrix of the wrong shape
     if cls == "MultiTargetMCSU2" and wrap == "single" and any(f in SEQ_FORMS and f != "tuple" for f in spec["forms"]):
         return "ValueError"                                 # a nested list is read as a list of 1-D "unitaries"
-    if isinstance(spec.get("cs"), int) and k >= 2 and (cls == "Ldmcsu" or (entry.endswith("multi_target_mcsu2") and wrap == "single")):
+    if isinstance(spec.get("cs"), int) and (cls == "Ldmcsu" or (entry.endswith("multi_target_mcsu2") and wrap == "single")):
         # Ldmcsu slices the pattern itself (`ctrl_state[::-1]`) and annotates it `str`: not a documented form.  The
         # bare-matrix branch of the static helper hands the int straight to Ldmcsu.  LdMcSpecialUnitary (apply_ctrl_state,
         # F-C04-13) and the MultiTargetMCSU2 constructor (documented "decimal or bitstring", F-C04-16) convert: oracle.
-        return "TypeError"
+        # A numpy integer fails the same slice with IndexError ("invalid index to scalar variable"); with one control
+        # the value goes to qiskit's `.control(1, ctrl_state)`, which takes a Python int and refuses a numpy one.
+        if k >= 2:
+            return "IndexError" if spec.get("cs_type") else "TypeError"
+        if spec.get("cs_type"):
+            return "CircuitError"
     # nested sequences as THE matrix of Ldmcsu (F-C04-14) and as elements of MultiTargetMCSU2's list (F-C04-15) are
     # converted with np.asarray: operator oracle, no exception allowed
     if use == "to_gate":
@@ -1243,7 +1249,8 @@ def div_key(spec):
                      "host=" + "+".join(f"{nm}{sz}" for nm, sz in spec["regs"])])
     form = "+".join(spec["forms"]) + (":" + spec["wrap"] if "wrap" in spec else "") + \
         (":same-object" if spec.get("same_object") else "")
-    return f"diversity:{spec['entry']}:%s:{form}:{call}:{spec['family']}:k={spec['k']}:cs={spec.get('cs')}{'(np.int64)' if spec.get('cs_type') else ''}"
+    head = "flagforms:" + spec["flagform"] if spec.get("flagform") else "diversity"
+    return f"{head}:{spec['entry']}:%s:{form}:{call}:{spec['family']}:k={spec['k']}:cs={spec.get('cs')}{'(' + spec['cs_type'] + ')' if spec.get('cs_type') else ''}"
 
 
 def div_record(ctx, spec, r):
@@ -1253,6 +1260,9 @@ def div_record(ctx, spec, r):
     ctx.count("diversity:" + spec["group"])
     what = f"{entry} [{spec['family']} as {'+'.join(spec['forms'])}, k={k}, ctrl_state={spec.get('cs')!r}, {spec.get('use', 'append')}]"
     allowed = div_allowed_exc(spec)
+    if spec.get("flagform"):
+        ctx.count("flagforms:" + spec["flagform"] + (":unsupported-" + allowed if allowed and r["exc"] is not None
+                                                     and r["exc"].split(":")[0] == allowed else ""))
     if r["mutated"]:
         ctx.fail(key % "caller-input-modified", what + ": the caller's matrix / list was modified", spec)
     if r["exc"] is not None:
@@ -1683,6 +1693,64 @@ def div_call_specs(ctx):
     return specs
 
 
+def div_flagform_specs(ctx):
+    """Flag-form pass (part A has no boolean option; its one option with a valid falsy value and two documented forms is
+    `ctrl_state`: "decimal or bitstring", MultiTargetMCSU2 docstring; apply_ctrl_state for LdMcSpecialUnitary).
+    The decimal form at BOTH ENDS of the range - 0 (the all-open pattern: falsy) and 2^k - 1 - and in the middle, as
+    Python int, np.int64, np.int32, np.uint8, next to the bit-string form of the same value, through every entry point
+    that takes the option (constructor positional / keyword, static helper positional / keyword / all keywords), at k on
+    both sides of the size thresholds of the code path (one control; LdMcSpecialUnitary < 3, < 6; k_1 != k_2).
+    Judged by the ordinary operator oracle on a permuted host and tied with the canonical zero-padded bit string.
+    Ldmcsu / Ldmcsu.ldmcsu / the bare-matrix branch of multi_target_mcsu2 annotate `str` and slice the pattern: for
+    k >= 2 the int must end in TypeError (counted flagforms:...:unsupported-TypeError) - never in a silently different
+    pattern, which is what `if ctrl_state:` in place of `is not None` would give for 0."""
+    r = ctx.rng
+    fams = families(r)
+    pool = [("RY", fams["RY"]), ("main-real", fams["main-real"]), ("sec-real", fams["sec-real"]), ("-RY", -fams["RY"]),
+            ("iX", 1j * PX), ("RZ", fams["RZ"])]
+    gen = [("haar", fams["haar"]), ("RXZ", fams["RXZ"])]
+    plan = [("LdMcSpecialUnitary", None, (1, 2, 3, 5, 6), ("kw", "pos")),
+            ("LdMcSpecialUnitary.ldmcsu", None, (1, 2, 3, 5), ("pos", "kw", "allkw")),
+            ("MultiTargetMCSU2", "list", (1, 2, 3, 4), ("kw", "pos")),
+            ("MultiTargetMCSU2", "single", (1, 2, 3), ("pos", "kw")),
+            ("MultiTargetMCSU2.multi_target_mcsu2", "list", (1, 2, 3, 4), ("pos", "kw", "allkw")),
+            ("MultiTargetMCSU2.multi_target_mcsu2", "single", (1, 2, 3), ("kw", "pos")),
+            ("Ldmcsu", None, (1, 2, 3), ("kw", "pos")),
+            ("Ldmcsu.ldmcsu", None, (1, 2, 3), ("pos", "kw", "allkw"))]
+    np_forms = ("np.int64", "np.int32", "np.uint8")
+    specs = []
+    i = 0
+    for entry, wrap, ks, hows in plan:
+        for k in ks:
+            ends = [("zero", 0), ("ones", 2 ** k - 1)] + ([("middle", r.randrange(1, 2 ** k - 1))] if k >= 2 else [])
+            for where, val in ends:
+                forms = ["int", "np.int64"] if where != "middle" else [("int", "np.int64")[i % 2]]
+                if where != "middle" and k in (2, 3):
+                    forms.append(np_forms[1 + i % 2])
+                if where != "middle" and k == ks[1]:
+                    forms.append("str")
+                for form in forms:
+                    i += 1
+                    nt = 1 + (i % 3 if k <= 3 else i % 2) if wrap == "list" else 1
+                    src = pool if (wrap == "list" or i % 3) else gen
+                    sel = [src[(i + j) % len(src)] for j in range(nt)]
+                    static = "." in entry
+                    if wrap == "list":
+                        kt = ("list-int", "list-qubit")[i % 2] if static else None
+                    else:
+                        kt = ("int", "qubit")[i % 2] if static else None
+                    lay = div_layout(r, k, nt, 1 if k + nt <= 6 else 0, kind_c=("ints", "qubits")[i % 2], kind_t=kt)
+                    kw = dict(lay, cs_how=hows[i % len(hows)], flagform=f"ctrl_state:{form}:{where}")
+                    if wrap:
+                        kw["wrap"] = wrap
+                    if form.startswith("np."):
+                        kw["cs_type"] = form
+                    cs = format(val, f"0{k}b") if form == "str" else val
+                    specs.append(div_spec("flagforms:ctrl_state", entry, "+".join(x[0] for x in sel), [x[1] for x in sel],
+                                          ["c128"] * nt, k, cs, **kw))
+    return specs
+
+
 def diversity_helpers(ctx):
     """Family 1 / 3 for the helper functions: `_get_x_z` on non-complex128 arrays, `_compute_gate_a` on Python / numpy
     scalars of every kind, `get_abc_operators` on integer / numpy / beyond-one-turn angles.  Tied to the same model ops
@@ -1778,7 +1846,7 @@ def diversity_helpers(ctx):
 def diversity(ctx):
     diversity_helpers(ctx)
     run_cases(ctx, div_phase_cases(ctx))
-    div_run(ctx, div_elem_specs(ctx) + div_mt_list_specs(ctx) + div_call_specs(ctx))
+    div_run(ctx, div_elem_specs(ctx) + div_mt_list_specs(ctx) + div_call_specs(ctx) + div_flagform_specs(ctx))
 
 
 def run(ctx, scale=0):
